@@ -223,7 +223,7 @@ def cases(tier, seed):
                        "shutdown_first_at": sd}
     m = 60 if tier == "quick" else 15000
     for _ in range(m):
-        I = rnd.choice([10.0, 60.0, 300.0, 7.5])
+        I = rnd.choice([10.0, 60.0, 300.0, 7.5, 0.2, 0.75, 2.5, 3600.0])
         W = rnd.choice([I + 1.0, I * 1.5, I + 30.0, I * 0.5, 2 * I + 0.25])
         yield {"gen": rnd.choice((4, 5)), "mode": "manager", "interval": I, "timeout": W,
                "pattern": [rnd.choice([0.0, 0.0, W * 0.1, None, None, I * 0.9])
